@@ -107,7 +107,7 @@ FRAGS = [
           "self.params['min_delta']": ('rec_delta', 'Int'), "self.params['min_npix']": ('rec_npix', 'Int')},
          mutable=['min_delta', 'min_npix', "self.params['min_delta']", "self.params['min_npix']"],
          select=_from_until(lambda t: True, lambda t: t.startswith('tests = '), inclusive=False),
-         ignore=[r'^warnings\.warn\('],
+         ignore=[(r'^warnings\.warn\(', 2)],
          outputs=['min_delta', 'min_npix', "self.params['min_delta']", "self.params['min_npix']"], props=['C07', 'C20'],
          doc='`prune`: effective parameters (0 inherits) and the recorded ones (never decrease)'),
     Frag('eq_params', 'astrodendro/dendrogram.py', 'Dendrogram.__eq__',
@@ -116,7 +116,7 @@ FRAGS = [
           "self_params['min_delta']": ('a_delta', 'Int'), "other_params['min_delta']": ('b_delta', 'Int')},
          param_types={'sameMinValue': 'Bool'},
          select=_from_until(lambda t: t.startswith("if self.params['min_value']"), lambda t: t.startswith('for key in'), inclusive=True),
-         ignore=[r'^(self|other)_params = ', r'^(self|other)_params\.pop\('],
+         ignore=[(r'^(self|other)_params = ', 2), (r'^(self|other)_params\.pop\(', 2)],
          unroll={'key': ["'min_npix'", "'min_delta'"]}, fallthrough='true', props=['C20'],
          doc='`__eq__`: parameter comparison (true = go on to compare the structures)'),
     Frag('structure_at_hit', 'astrodendro/dendrogram.py', 'Dendrogram.structure_at',
@@ -168,7 +168,7 @@ FRAGS = [
           'is_independent(struct)': ('indep', 'Bool'), 'parent is None': ('(!hasParent)', 'Bool')},
          param_types={'alive': 'Bool', 'hasParent': 'Bool'},
          select=lambda stmts: [s for w in stmts if isinstance(w, ast.While) for f_ in w.body if isinstance(f_, ast.For) for s in f_.body],
-         ignore=[r'^parent = struct\.parent$', r'^break$'], continue_value=('false', 'Bool'), yield_value=('true', 'Bool'),
+         ignore=[r'^parent = struct\.parent$'], continue_value=('false', 'Bool'), yield_value=('true', 'Bool'),
          props=['C07', 'C08'], doc='`_to_prune`: is the structure under the scan handed to the caller for merging? '
                                   '(`continue` = no, `yield` = yes)'),
     Frag('prune_merge_mode', 'astrodendro/dendrogram.py', 'Dendrogram.prune',
@@ -222,7 +222,7 @@ FRAGS = [
           'jansky_per_beam * beams_per_pixel': ('(105 : Int)', 'Int')},
          alias={'quantity_sum(q)': 'q', 'total_flux.to(output_unit)': 'total_flux'},
          param_types=dict((k, 'Bool') for k in ('hasWav', 'hasPix', 'hasBmaj', 'hasBmin')),
-         ignore=[r'^(nu|pixel_area|beams_per_pixel|omega_beam|jansky_per_beam) = ', r'^warnings\.warn\('],
+         ignore=[(r'^(nu|pixel_area|beams_per_pixel|omega_beam|jansky_per_beam) = ', 7), r'^warnings\.warn\('],
          raise_codes=[('wavelength should be', 1), ('wavelength is needed', 2), ('spatial_scale should be', 3),
                       ('spatial_scale is needed', 4), ('beam_major should be', 5), ('beam_major is needed', 6),
                       ('beam_minor should be', 7), ('beam_minor is needed', 8), ('not yet supported', 9),
